@@ -230,6 +230,33 @@ def memo_rule(prog: Program, rep: Report) -> None:
         rep.check(not bad, "R3.2", f"{fi.qualname} not memoised", where, f"{fi.qualname} is decorated with {bad}: clock/session would be reused across operations", key=f"R3.2|memo|{fi.qualname}")
 
 
+def _argument_pure(fi: Any) -> bool:
+    """A module-level function (no self) whose body reads nothing but its own parameters, local names and builtins,
+    stores nothing outside its locals and is not a generator: its result is a function of its arguments alone, so
+    remembering it per argument cannot carry a clock reading, a session or any instance state from one operation
+    into another (what R3.2 / R3.3 guard against).  Whether the remembered object is mutated by a caller is the
+    interpreter's business (the frozen "memo:" objects, DESIGN 2.3)."""
+    import builtins
+    if fi.cls is not None:
+        return False
+    a = fi.node.args
+    names = {x.arg for x in a.posonlyargs + a.args + a.kwonlyargs} | ({a.vararg.arg} if a.vararg else set()) | ({a.kwarg.arg} if a.kwarg else set())
+    body = ast.Module(body=list(fi.node.body), type_ignores=[])      # (not the decorators / annotations of the def itself)
+    for n in ast.walk(body):
+        if isinstance(n, ast.Name) and isinstance(n.ctx, ast.Store):
+            names.add(n.id)
+        if isinstance(n, (ast.Yield, ast.YieldFrom, ast.Global, ast.Nonlocal, ast.Await)):
+            return False
+        if isinstance(n, (ast.Assign, ast.AugAssign, ast.AnnAssign, ast.Delete)):
+            tg = n.targets if isinstance(n, (ast.Assign, ast.Delete)) else [n.target]
+            if any(not isinstance(t, (ast.Name, ast.Tuple, ast.List)) for t in tg):
+                return False        # attribute / item stores
+    for n in ast.walk(body):
+        if isinstance(n, ast.Name) and isinstance(n.ctx, ast.Load) and n.id not in names and not hasattr(builtins, n.id):
+            return False
+    return True
+
+
 def state_sweep(prog: Program, rep: Report) -> None:
     """R3.3: write-effect sweep for anything that could carry state between operations or instances."""
     n = 0
@@ -240,7 +267,7 @@ def state_sweep(prog: Program, rep: Report) -> None:
             where0 = f"{m.relpath}:{fi.node.lineno} {fi.qualname}"
             findings: List[Tuple[int, str]] = []
             for d in fi.decorators:
-                if any(x in d.split("(")[0].split(".")[-1] for x in CACHE_DECOS):
+                if any(x in d.split("(")[0].split(".")[-1] for x in CACHE_DECOS) and not _argument_pure(fi):
                     findings.append((fi.node.lineno, f"decorator @{d} memoises results across calls"))
             mutable_defaults = {k for k, v in fi.defaults().items() if isinstance(v, (ast.List, ast.Dict, ast.Set)) or (isinstance(v, ast.Call) and ast.unparse(v.func) in ("set", "list", "dict"))}
             selfname = fi.params[0] if fi.cls is not None and fi.params else None
